@@ -67,19 +67,19 @@ theorem snapshot_congr {a b : List Gauge} : ∀ (ids : List Nat), (∀ id ∈ id
 
 /-! ## the loops of the epoch hook, in parallel -/
 
-theorem distributeLoop_drop {D : List Nat} (thr : Thr) (locks : List Lock) : ∀ (snap a b : List Gauge) (info : Info),
+theorem distributeLoop_drop {D : List Nat} (locks : List Lock) : ∀ (thr : MinVal) (snap a b : List Gauge) (info : Info),
     Look D a b →
     OR (fun (p q : List Gauge × Info) => Look D p.1 q.1 ∧ p.2 = q.2)
       (distributeLoop thr locks snap a info) (distributeLoop thr locks snap b info)
-  | [], _, _, _, h => ⟨h, rfl⟩
-  | g :: gs, a, b, info, h => by
+  | _, [], _, _, _, h => ⟨h, rfl⟩
+  | thr, g :: gs, a, b, info, h => by
     simp only [distributeLoop]
     cases distributeGauge thr locks g with
     | none => trivial
     | some r =>
       cases r with
-      | none => exact distributeLoop_drop thr locks gs a b info h
-      | some tp => exact distributeLoop_drop thr locks gs _ _ _ (look_setGauge h _)
+      | none => exact distributeLoop_drop locks _ gs a b info h
+      | some tp => exact distributeLoop_drop locks _ gs _ _ _ (look_setGauge h _)
 
 theorem refsAdd_none {r : Refs} {t : Int} {id : Nat} (h : refsAdd r t id = none) : id ∈ refsIds r := by
   induction r with
@@ -150,7 +150,7 @@ theorem drop_not_live {D : List Nat} {s t : State} (hi : Inv s) (h : Drop D s t)
   have := (List.nodup_append.mp hnd).2.2 id hid id hf
   exact this rfl
 
-theorem epoch_drop {D : List Nat} {s t : State} (hi : Inv s) (h : Drop D s t) (now : Int) (thr : Thr) (locks : List Lock) :
+theorem epoch_drop {D : List Nat} {s t : State} (hi : Inv s) (h : Drop D s t) (now : Int) (thr : Quotes) (locks : List Lock) :
     OR (fun (p q : State × Info) => Drop D p.1 q.1 ∧ p.2 = q.2) (epoch s now thr locks) (epoch t now thr locks) := by
   unfold epoch
   rw [h.up, h.act]
@@ -169,9 +169,9 @@ theorem epoch_drop {D : List Nat} {s t : State} (hi : Inv s) (h : Drop D s t) (n
     | none => trivial
     | some snap =>
       simp only
-      have hd := distributeLoop_drop (D := D) thr locks snap s.gauges t.gauges [] h.look
+      have hd := distributeLoop_drop (D := D) locks ⟨thr, []⟩ snap s.gauges t.gauges [] h.look
       revert hd
-      cases distributeLoop thr locks snap s.gauges [] <;> cases distributeLoop thr locks snap t.gauges [] <;> intro hd
+      cases distributeLoop ⟨thr, []⟩ locks snap s.gauges [] <;> cases distributeLoop ⟨thr, []⟩ locks snap t.gauges [] <;> intro hd
       · trivial
       · exact hd.elim
       · exact hd.elim
@@ -335,22 +335,22 @@ theorem activate_idem {now now' : Int} (hle : now ≤ now') : ∀ (up act u1 a1 
 def Cov (s : State) : Prop :=
   ∀ g ∈ s.gauges, g.id ∈ refsIds s.upcoming ++ refsIds s.active ++ refsIds s.finished
 
-theorem distributeLoop_ids {thr : Thr} {locks : List Lock} : ∀ (snap store : List Gauge) (info : Info)
+theorem distributeLoop_ids {locks : List Lock} : ∀ (thr : MinVal) (snap store : List Gauge) (info : Info)
     {store' : List Gauge} {info' : Info}, distributeLoop thr locks snap store info = some (store', info') →
     store'.map (·.id) = store.map (·.id)
-  | [], store, info, store', info', h => by
+  | _, [], store, info, store', info', h => by
     simp only [distributeLoop, Option.some.injEq, Prod.mk.injEq] at h; rw [← h.1]
-  | g :: gs, store, info, store', info', h => by
+  | thr, g :: gs, store, info, store', info', h => by
     simp only [distributeLoop] at h
     cases hd : distributeGauge thr locks g with
     | none => rw [hd] at h; cases h
     | some r =>
       rw [hd] at h
       cases r with
-      | none => exact distributeLoop_ids gs store info h
+      | none => exact distributeLoop_ids _ gs store info h
       | some tp =>
         simp only at h
-        rw [distributeLoop_ids gs _ _ h, map_id_setGauge]
+        rw [distributeLoop_ids _ gs _ _ h, map_id_setGauge]
 
 theorem Cov_step {s : State} (h : Cov s) (o : Op) : Cov (step s o) := by
   cases o with
@@ -421,7 +421,7 @@ theorem Cov_step {s : State} (h : Cov s) (o : Op) : Cov (step s o) := by
       have pall := epoch_refs_perm p1 p2 p3
       intro g hg
       have : g.id ∈ store.map (·.id) := List.mem_map_of_mem hg
-      rw [distributeLoop_ids _ _ _ h3] at this
+      rw [distributeLoop_ids _ _ _ _ h3] at this
       obtain ⟨g0, hg0, e⟩ := List.mem_map.mp this
       rw [← e]
       exact pall.mem_iff.mpr (h g0 hg0)
@@ -481,7 +481,7 @@ theorem Inv_ticked {s : State} {now : Int} {ua : Refs × Refs} (hi : Inv s)
   exact ⟨hi.g, hi.ids, hi.idle, pall.symm.nodup hi.refs, fun id hid => hi.refle id (pall.mem_iff.mp hid), hi.vbal, hi.bal⟩
 
 theorem epoch_ticked {s : State} {now now' : Int} {ua : Refs × Refs} (hw : RefsWF s.upcoming) (hle : now ≤ now')
-    (h : activate now s.upcoming s.active = some ua) (thr : Thr) (locks : List Lock) :
+    (h : activate now s.upcoming s.active = some ua) (thr : Quotes) (locks : List Lock) :
     epoch (ticked s ua) now' thr locks = epoch s now' thr locks := by
   obtain ⟨u1, a1⟩ := ua
   unfold epoch ticked
@@ -492,7 +492,7 @@ every operation (same failures, same payouts per owner in every epoch) as long a
 finished at export time is topped up; the states stay `Drop`-related (the imported one lacks those gauges). -/
 theorem run_after_import {s t : State} {now now' : Int} (hi : Inv s) (hs : SInv s) (hw : WFInv s) (hc : Cov s)
     (hstarted : ∀ kv ∈ s.active, kv.1 ≤ now) (ht : exportImport now s = some t) (hle : now ≤ now')
-    (thr : Thr) (locks : List Lock) (hok : epoch s now' thr locks ≠ none)
+    (thr : Quotes) (locks : List Lock) (hok : epoch s now' thr locks ≠ none)
     (ops : List Op) (hav : ∀ o ∈ ops, o.avoids (refsIds s.finished)) :
     outcomes t (.epoch now' thr locks :: ops) = outcomes s (.epoch now' thr locks :: ops) ∧
     Drop (refsIds s.finished) (run s (.epoch now' thr locks :: ops)) (run t (.epoch now' thr locks :: ops)) := by
